@@ -293,6 +293,9 @@ def load_performance_midi(
 
             pps.append(pp)
 
+    # tempo changes are collected track by track: bring them into file order
+    tempo_changes.sort(key=lambda x: x[0])
+
     # adjust timing of events based on tempo changes
     for pp in pps:
         for note in pp.notes:
